@@ -561,7 +561,9 @@ def model_task(task, ybin, root):
         # a schema text of some twenty kilobytes (an enumeration with several hundred symbols that sorts before everything
         # else): what distinguishes the near-identical model then lies far into the text
         fn_ = sorted(pkg_a.files)[0]
-        pkg_a.files[fn_].append(M.Enum("AaaBigCodes", "uint16", [("code%03d" % k_, k_) for k_ in range(rng.fork("bigschema2").randint(620, 900))]))
+        # (for one in three of them beyond 64 KiB: generated files carry the schema text on one line)
+        huge_ = rng.fork("hugeschema").chance(0.35)
+        pkg_a.files[fn_].append(M.Enum("AaaBigCodes", "uint16", [("code%04d" % k_, k_) for k_ in range(rng.fork("bigschema2").randint(2400, 3000) if huge_ else rng.fork("bigschema2").randint(620, 900))]))
         rq_ = pkg_a.find("SteerRecQ")
         rq_.fields.insert(0, ("code", M.Named("AaaBigCodes")))
         stats_big = True
@@ -574,7 +576,14 @@ def model_task(task, ybin, root):
                 pkg_a.find(nm_).comment = txt_
     edit = rng.choice(EDITS)
     pkg_b = near_identical(pkg_a, edit)
-    stats, viols, cases = {"models_with_cpp": 1 if want_cpp else 0, "edit_" + edit: 1, "models_with_a_schema_text_of_some_20_kB": 1 if stats_big else 0}, [], []
+    # the reader of the near-identical model is, half of the time, generated into the directory that holds the output of the
+    # other model: the one was made from the other by an edit, and that is where an edited model is generated to
+    over_ = rng.fork("generatedover").chance(0.5)
+    if over_:
+        import copy as _copy
+        pkg_b.generated_over = _copy.deepcopy(pkg_a)
+    stats, viols, cases = {"models_with_cpp": 1 if want_cpp else 0, "edit_" + edit: 1, "models_with_a_schema_text_of_some_20_kB": 1 if stats_big else 0,
+                           "models_with_a_schema_text_beyond_64_KiB": 1 if (stats_big and huge_) else 0, "twin_generated_over_the_output_of_the_other_model": 1 if over_ else 0}, [], []
     # model A: only its schemas are needed (its streams come from the reference encoder)
     # (for C++ models also what model A's *own generated C++ writer* puts at the head of a stream: default values written
     #  through a call script - the header a C++ reader meets in practice is one a C++ writer emitted, not the reference text)
@@ -608,6 +617,8 @@ def model_task(task, ybin, root):
     pkg_c, edit_c = random_wire_edit(pkg_a, rng.fork("wire"))
     if pkg_c is not None:
         stats["random_twin"] = 1
+        if over_:
+            pkg_c.generated_over = _copy.deepcopy(pkg_a)
         run_twin(task, rng.fork("twin2"), pkg_c, "random: " + edit_c, a_streams, want_cpp, ybin, root, quick, stats, viols, cases, only_misdelivery=True)
     seen, out = set(), []
     for rec, d in viols:
